@@ -61,7 +61,7 @@ def _pipeline_info(pipe, data, context, former_data=None):
             else:
                 new_data = OrderedDict()
                 for v in vs:
-                    new_data[v] = data.get(v, v)
+                    new_data[v] = data.get(v, v) if hasattr(data, "get") else v
 
             info = _pipeline_info(model, new_data, context, former_data=new_data)
             # new_outputs = []
